@@ -53,12 +53,23 @@ structure Params where
   rank : Nat          -- rank of the constant tensor (size 1)
   value : Rat         -- its single element, exactly
 
-/-- Does the (commuted) rule set fire?  Restates `_match_constant` for a scalar literal. -/
-def Params.check (p : Params) : Bool :=
+/-- Before commit 6800bd1 (finding D3, fixed): every pattern literal became `Constant(v, rel_tol=1e-5, abs_tol=1e-8)`. -/
+def Params.checkPrefix (p : Params) : Bool :=
   (p.op.commuted || !p.constOnLeft) &&
   p.origin.hasConstValue &&
   p.rank == 0 &&
   isclose p.value p.op.literal relTol absTol
+
+/-- Tolerances of an *integer* pattern literal since commit 6800bd1 (`x + 0`, `x * 1`, `x - 0`, `x / 1`, `[-1]`): exact. -/
+def intLiteralRelTol : Rat := 0
+def intLiteralAbsTol : Rat := 0
+
+/-- Does the (commuted) rule set fire?  Restates `_match_constant` for a scalar integer literal. -/
+def Params.check (p : Params) : Bool :=
+  (p.op.commuted || !p.constOnLeft) &&
+  p.origin.hasConstValue &&
+  p.rank == 0 &&
+  isclose p.value p.op.literal intLiteralRelTol intLiteralAbsTol
 
 /-- The side condition that makes `Identity(x)` right: the operand is *exactly* the unit and is a true
 constant.  (`check ∧ ¬ exact` is finding D3; `check ∧ inputWithDefault` is finding C05-N1.) -/
